@@ -43,6 +43,7 @@ s := "ab"
 u := "q"
 v := []int{1, 2}
 w := []string{"p"}
+z := []int{9}
 n := 0
 g := 10
 k0 := 1
@@ -92,6 +93,9 @@ for vi, ve := range v {
 }
 for wi, we := range w {
 	print("w", wi, we)
+}
+for zi, ze := range z {
+	print("z", zi, ze)
 }
 `
 
@@ -161,6 +165,10 @@ func crossStmts() []crossStmt {
 		S(3, true, "v=literal", "v = []int{x, y, 4}"),
 		S(3, true, "w=literal", "w = []string{s, u}"),
 		S(3, false, "alias-write", "al# := v\nal#[1] = 9"),
+		S(3, true, "swap-slices", "v, z = z, v"),
+		S(3, true, "z=v", "z = v"),
+		S(3, false, "z-grow", "z[len(z)] = x"),
+		S(3, true, "rotate-mixed", "x, v, z, y = y, z, v, x"),
 		S(3, false, "fresh-grow-assign", "nv# := []int{}\nnv#[0] = x\nv = nv#"),
 		S(3, false, "n=copy(v,literal)", "n = copy(v, []int{7, 8, 9})"),
 		S(3, true, "range-v", "for i#, e# := range v {\nx += e# * i#\n}"),
@@ -214,6 +222,10 @@ func crossCtxs() []crossCtx {
 		fn("func", "func ctx@() {\nBODY\n}\n", "ctx@()\n"),
 		fn("func-twice", "func ctx@() {\nBODY\n}\n", "ctx@()\nctx@()\n"),
 		fn("func-result", "func ctx@() int {\nBODY\nreturn x + 1\n}\n", "print(\"ret\", ctx@())\n"),
+		// a bare return nested in a block of a result-less function, before and after the body
+		fn("func-early-return", "func ctx@() {\nif k0 == 2 {\nreturn\n}\nBODY\nif k0 == 1 {\nreturn\n}\nprint(\"unreachable\")\n}\n", "ctx@()\n"),
+		// a value returned from inside a loop inside a branch
+		fn("func-nested-return", "func ctx@() int {\nif k0 == 1 {\nfor r@ := 0; r@ < 3; r@++ {\nBODY\nif r@ == 1 {\nreturn r@ + 40\n}\n}\n}\nreturn 0\n}\n", "print(\"ret\", ctx@())\n"),
 		fn("func-params", "func ctx@(p@ int, q@ string) int {\nBODY\nreturn p@ + len(q@)\n}\n", "print(\"ret\", ctx@(y, u))\n"),
 	}
 }
